@@ -52,8 +52,22 @@ fn next_down(x: f64) -> f64 {
 fn gen_plan(seed: u64) -> BucketPlan {
     let mut r = Rng::new(seed, 1);
     let base: Vec<f64> = vec![-5.0, -0.0, 0.0, 5e-324, 0.005, 0.1, 1.0, 2.5, 1e10, 1e300];
-    let mut bounds: Vec<f64> = match r.below(12) {
+    let mut bounds: Vec<f64> = match r.below(14) {
         0 => vec![],
+        // long lists (an implementation may switch its search strategy with the number of bounds)
+        12 | 13 => {
+            let n = *r.pick(&[8usize, 15, 16, 17, 18, 31, 32, 33, 64, 65, 100]);
+            match r.below(3) {
+                0 => linear_buckets(*r.pick(&[-4.0, 0.0, 0.5]), *r.pick(&[0.25, 1.0, 1e-3]), n).unwrap_or_default(),
+                1 => exponential_buckets(*r.pick(&[1e-9, 1.0, 3.0]), *r.pick(&[1.5, 2.0]), n).unwrap_or_default(),
+                _ => {
+                    let mut v: Vec<f64> = (0..n).map(|_| (r.below(400) as f64) * 0.25 - 30.0).collect();
+                    v.sort_by(|a, b| a.partial_cmp(b).unwrap());
+                    v.dedup();
+                    v
+                }
+            }
+        }
         1 => linear_buckets(*r.pick(&[-1.0, 0.0, 0.5]), *r.pick(&[0.25, 1.0, 1e-3]), 1 + r.below(5) as usize).unwrap_or_default(),
         2 => exponential_buckets(*r.pick(&[0.001, 1.0, 3.0]), *r.pick(&[1.5, 2.0, 10.0]), 1 + r.below(5) as usize).unwrap_or_default(),
         _ => {
